@@ -307,6 +307,46 @@ def run_c11(ctx: common.Ctx):
                 ctx.monitor_failure('C11:original-edit-changed-copy', f'editing the original [{oh}] changed deepcopy({p})', dict(w, orig_edits=oh))
             ctx.case({'path': p, 'class': type(m).__name__, 'pre_edits': len(pre), 'copy_edits': ch[:3]},
                      nontrivial=bool(ch or oh))
+        # ONE deepcopy call that reaches several models of the document at once (a list / tuple / dict holding an
+        # ancestor and its descendant, the same model twice, siblings): every element of the result must again be
+        # an equal, exact, complete and disjoint copy of its original
+        f2 = gen_docs.parse_ok(text, ac)
+        if f2 is None:
+            continue
+        trees = [(p, m) for p, m in treewalk.walk(f2) if isinstance(m, base.RawTreeModel)]
+        for _ in range(2):
+            p1, m1 = r.choice(trees)
+            inner = [(q, x) for q, x in treewalk.walk(m1) if isinstance(x, base.RawTreeModel) and x is not m1]
+            picks = [(p1, m1)]
+            if inner:
+                q_in, x_in = r.choice(inner)
+                picks.append((f'{p1}/{q_in}', x_in))
+            if r.random() < 0.5:
+                picks.append(r.choice(trees))
+            if r.random() < 0.3:
+                picks.append(picks[0])
+            r.shuffle(picks)
+            shape = r.choice(['list', 'tuple', 'dict'])
+            box = {'list': lambda xs: list(xs), 'tuple': lambda xs: tuple(xs),
+                   'dict': lambda xs: {i: x for i, x in enumerate(xs)}}[shape]([m for _, m in picks])
+            w = {'text': text, 'auto_claim': ac, 'container': shape, 'paths': [q for q, _ in picks]}
+            try:
+                cb = copy.deepcopy(box)
+            except Exception as x:
+                ctx.monitor_failure('C11:container-deepcopy-raised', f'deepcopy of a {shape} holding the models at {w["paths"]} of one '
+                                    f'document raised {type(x).__name__}: {x}', w)
+                continue
+            ctx.count('container_copies')
+            orig_ids = {id(t) for t in f2.token_store}
+            for (q, m), c in zip(picks, cb.values() if shape == 'dict' else cb):
+                if type(c) is not type(m) or not (c == m) or treewalk.text_of(c) != span_text(m):
+                    ctx.monitor_failure('C11:container-copy-differs', f'element {q} of a deep-copied {shape} is not an equal, exact copy', w)
+                elif any(id(t) in orig_ids for t in c.token_store):
+                    ctx.monitor_failure('C11:container-copy-shares-token', f'element {q} of a deep-copied {shape} shares a token with the original', w)
+                else:
+                    probs = treewalk.wf_problems(c, expect_whole_store=True)
+                    if probs:
+                        ctx.monitor_failure('C11:container-copy-not-wf', f'element {q} of a deep-copied {shape} is not complete in its own store: {probs[0]}', w)
 
 
 # ---- C20 -------------------------------------------------------------------------------------------
